@@ -141,15 +141,15 @@ pub fn check_pair(alg: Algorithm, old: &[u8], new: &[u8]) -> Result<PairOutcome,
 pub fn scopes(tier: Tier) -> Vec<Scope> {
     match tier {
         Tier::Quick => vec![
-            Scope::P { k: 3, n: 5 },
-            Scope::P { k: 2, n: 7 },
-            Scope::R { l: 8 },
+            Scope::P { k: 3, n: 6 },
+            Scope::P { k: 2, n: 8 },
+            Scope::R { l: 9 },
         ],
         Tier::Thorough => vec![
             Scope::P { k: 3, n: 7 },
-            Scope::P { k: 2, n: 9 },
-            Scope::P { k: 4, n: 5 },
-            Scope::R { l: 10 },
+            Scope::P { k: 2, n: 10 },
+            Scope::P { k: 4, n: 6 },
+            Scope::R { l: 11 },
         ],
     }
 }
